@@ -511,6 +511,8 @@ func runCheck(prop, tier, cfgPath, evDir, knownPath, replayDir string, verbose b
 			"functions_under_contract":  funcsUnder,
 			"solver_backends":           solverCount,
 			"solver_time_s":             solverTime,
+			"slowest_discharged":        slowest(obls, 5),
+			"per_obligation_timeout_s":  timeout.Seconds(),
 			"unsupported":               unsupportedFns,
 			"samples":                   samples,
 			"violating_obligations":     violNames,
@@ -575,4 +577,24 @@ func truncate(s string, n int) string {
 		return s[:n] + "..."
 	}
 	return s
+}
+
+// slowest: the n discharged obligations that took the solvers longest (how far the claimed obligations are from the
+// per-obligation budget).
+func slowest(obls []*Obligation, n int) []map[string]any {
+	var ps []*Obligation
+	for _, o := range obls {
+		if o.Status == "proved" || o.Status == "covered" {
+			ps = append(ps, o)
+		}
+	}
+	sort.Slice(ps, func(i, j int) bool { return ps[i].Res.Time > ps[j].Res.Time })
+	var out []map[string]any
+	for i, o := range ps {
+		if i >= n {
+			break
+		}
+		out = append(out, map[string]any{"obligation": o.Name, "solver": o.Res.Solver + "/" + o.Res.Mode, "time_s": o.Res.Time})
+	}
+	return out
 }
